@@ -1474,9 +1474,12 @@ MODELS["iter::empty"] = lambda ex, c, a: PyIter("empty")
 @model("Iterator::skip")
 def m_skip(ex, c, args):
     n = args[1]
+    inner = to_iter_val(ex, args[0])
     if not isinstance(n, int):
-        raise Unmodelled("skip(symbolic)")
-    return PyIter("skip", to_iter_val(ex, args[0]), n)
+        ln = it_len(ex, inner)
+        c_ = ex.concretize(n, list(range(ln + 1)), "skip")
+        n = ln + 1 if c_ is None else c_
+    return PyIter("skip", inner, n)
 
 
 @model("Iterator::take")
@@ -1902,6 +1905,9 @@ def m_str_len(ex, c, args):
         return len(v.encode("utf-8", "surrogateescape"))
     if type(v) is BStr:
         return len(v.b)
+    hook = getattr(ex, "sym_str_len", None)
+    if hook:
+        return hook(ex, v)
     raise Unmodelled("len of symbolic token string")
 
 
